@@ -1,61 +1,13 @@
 //! C16 — layout, indexing, conversions and swizzles preserve every component in order.
-use cgmath::conv;
 use cgmath::{Array, Matrix};
 use mc_props::*;
-use std::fmt::Debug;
 
 const P: &str = "C16";
 fn key(s: &str) -> String {
     format!("{P}/{s}")
 }
 
-/// element types with pairwise-distinct labelled values
-trait El: Copy + PartialEq + Debug + Send + Sync + 'static {
-    const NAME: &'static str;
-    fn label(i: usize) -> Self;
-}
-macro_rules! el_num {
-    ($($t:ty),*) => { $( impl El for $t { const NAME: &'static str = stringify!($t); fn label(i: usize) -> $t { (3 + 2 * i) as $t } } )* };
-}
-el_num!(u8, i16, i32, u64, usize, f32, f64);
-impl El for char {
-    const NAME: &'static str = "char";
-    fn label(i: usize) -> char {
-        (b'a' + i as u8) as char
-    }
-}
-impl El for bool {
-    const NAME: &'static str = "bool";
-    fn label(i: usize) -> bool {
-        i % 2 == 1
-    }
-}
-impl El for &'static str {
-    const NAME: &'static str = "&str";
-    fn label(i: usize) -> &'static str {
-        ["a0", "b1", "c2", "d3", "e4", "f5", "g6", "h7", "i8", "j9", "k10", "l11", "m12", "n13", "o14", "p15", "q16", "r17", "s18", "t19"][i]
-    }
-}
-#[derive(Clone, Copy, PartialEq, Debug)]
-struct Tag(u8, u8);
-impl El for Tag {
-    const NAME: &'static str = "Tag";
-    fn label(i: usize) -> Tag {
-        Tag(i as u8, 100 - i as u8)
-    }
-}
-
-type ReadFn<V, E> = fn(&V) -> Vec<E>;
-type WriteFn<V, E> = fn(&mut V, usize, E);
-type SwapFn<V> = fn(&mut V, usize, usize);
-struct Desc<V, E> {
-    name: String,
-    n: usize,
-    mk: fn(&[E]) -> V,
-    reads: Vec<(&'static str, ReadFn<V, E>)>,
-    writes: Vec<(&'static str, WriteFn<V, E>)>,
-    swaps: Vec<(&'static str, SwapFn<V>)>,
-}
+use mc_props0::views::*;
 
 /// the view machine: BFS over contents; every write view followed by every read view
 fn machine<V: Send + Sync + 'static, E: El>(rep: &mut Report, d: Desc<V, E>) {
@@ -139,251 +91,6 @@ fn machine<V: Send + Sync + 'static, E: El>(rep: &mut Report, d: Desc<V, E>) {
                 rep.sr_agree += 1;
             }
         }
-    }
-}
-
-// ------------------------------------------------------------------ descriptors
-macro_rules! idx_match {
-    ($i:expr, $e:expr, $t:expr; $($k:tt),+) => { match $i { $( $k => $t.$k = $e, )+ _ => unreachable!() } };
-}
-macro_rules! vec_like {
-    ($fname:ident, $V:ident, $n:expr, [$($f:ident : $k:tt),+], $Tup:ty) => {
-        fn $fname<E: El>() -> Desc<$V<E>, E> {
-            let d: Desc<$V<E>, E> = Desc {
-                name: format!("{}<{}>", stringify!($V), E::NAME),
-                n: $n,
-                mk: |c| $V { $($f: c[$k]),+ },
-                reads: vec![
-                    ("fields", |v| vec![$(v.$f),+]),
-                    ("index", |v| (0..$n).map(|i| v[i]).collect()),
-                    ("index[..]", |v| v[..].to_vec()),
-                    ("index[0..n]", |v| v[0..$n].to_vec()),
-                    ("index[..n]", |v| v[..$n].to_vec()),
-                    ("index[i..] heads", |v| (0..$n).map(|i| v[i..][0]).collect()),
-                    ("as_ref array", |v| { let a: &[E; $n] = v.as_ref(); a.to_vec() }),
-                    ("as_ref tuple", |v| { let t: &$Tup = v.as_ref(); vec![$(t.$k),+] }),
-                    ("into array", |v| { let a: [E; $n] = (*v).into(); a.to_vec() }),
-                    ("into tuple", |v| { let t: $Tup = (*v).into(); vec![$(t.$k),+] }),
-                    ("from array", |v| { let a = [$(v.$f),+]; let w: $V<E> = a.into(); vec![$(w.$f),+] }),
-                    ("from tuple", |v| { let t: $Tup = ($(v.$f),+ ,); let w: $V<E> = t.into(); vec![$(w.$f),+] }),
-                    ("from &array", |v| { let a = [$(v.$f),+]; let w: &$V<E> = (&a).into(); vec![$(w.$f),+] }),
-                    ("from &tuple", |v| { let t: $Tup = ($(v.$f),+ ,); let w: &$V<E> = (&t).into(); vec![$(w.$f),+] }),
-                    ("map identity", |v| { let w = v.map(|x| x); vec![$(w.$f),+] }),
-                    ("clone", |v| { let w = v.clone(); vec![$(w.$f),+] }),
-                ],
-                writes: vec![
-                    ("field", |v, i, e| idx_field!(v, i, e; $($f : $k),+)),
-                    ("index_mut", |v, i, e| v[i] = e),
-                    ("index_mut[..]", |v, i, e| v[..][i] = e),
-                    ("index_mut[i..i+1]", |v, i, e| v[i..i + 1][0] = e),
-                    ("index_mut[..i+1]", |v, i, e| v[..i + 1][i] = e),
-                    ("index_mut[i..]", |v, i, e| v[i..][0] = e),
-                    ("as_mut array", |v, i, e| { let a: &mut [E; $n] = v.as_mut(); a[i] = e; }),
-                    ("as_mut tuple", |v, i, e| { let t: &mut $Tup = v.as_mut(); idx_match!(i, e, t; $($k),+) }),
-                    ("from &mut array", |v, i, e| { let mut a = [$(v.$f),+]; { let w: &mut $V<E> = (&mut a).into(); idx_field!(w, i, e; $($f : $k),+); } *v = $V { $($f: a[$k]),+ }; }),
-                    ("from &mut tuple", |v, i, e| { let mut t: $Tup = ($(v.$f),+ ,); { let w: &mut $V<E> = (&mut t).into(); idx_field!(w, i, e; $($f : $k),+); } *v = $V { $($f: t.$k),+ }; }),
-                ],
-                swaps: vec![],
-            };
-            d
-        }
-    };
-}
-macro_rules! idx_field {
-    ($v:expr, $i:expr, $e:expr; $($f:ident : $k:tt),+) => { match $i { $( $k => $v.$f = $e, )+ _ => unreachable!() } };
-}
-macro_rules! with_mint {
-    ($fname:ident, $base:ident, $V:ident, $M:ident, [$($f:ident),+]) => {
-        fn $fname<E: El>() -> Desc<$V<E>, E> {
-            let mut d = $base::<E>();
-            d.reads.push(("into mint", |v| { let m: mint::$M<E> = (*v).into(); vec![$(m.$f),+] }));
-            d.reads.push(("from mint", |v| { let m: mint::$M<E> = mint::$M { $($f: v.$f),+ }; let w: $V<E> = m.into(); vec![$(w.$f),+] }));
-            d
-        }
-    };
-}
-vec_like!(d_v1, Vector1, 1, [x: 0], (E,));
-vec_like!(d_v2_, Vector2, 2, [x: 0, y: 1], (E, E));
-with_mint!(d_v2, d_v2_, Vector2, Vector2, [x, y]);
-vec_like!(d_v3_, Vector3, 3, [x: 0, y: 1, z: 2], (E, E, E));
-with_mint!(d_v3, d_v3_, Vector3, Vector3, [x, y, z]);
-vec_like!(d_v4_, Vector4, 4, [x: 0, y: 1, z: 2, w: 3], (E, E, E, E));
-with_mint!(d_v4, d_v4_, Vector4, Vector4, [x, y, z, w]);
-vec_like!(d_p1, Point1, 1, [x: 0], (E,));
-vec_like!(d_p2_, Point2, 2, [x: 0, y: 1], (E, E));
-with_mint!(d_p2, d_p2_, Point2, Point2, [x, y]);
-vec_like!(d_p3_, Point3, 3, [x: 0, y: 1, z: 2], (E, E, E));
-with_mint!(d_p3, d_p3_, Point3, Point3, [x, y, z]);
-
-/// views that exist only for numeric element types (Array trait, conv functions)
-macro_rules! vec_num_extras {
-    ($fname:ident, $base:ident, $V:ident, $n:expr, [$($f:ident),+] $(, conv: $cf:ident)?) => {
-        fn $fname<E: El + cgmath::BaseNum>() -> Desc<$V<E>, E> {
-            let mut d = $base::<E>();
-            d.reads.push(("as_ptr", |v| { let p = Array::as_ptr(v); (0..$n).map(|i| unsafe { *p.add(i) }).collect() }));
-            d.writes.push(("as_mut_ptr", |v, i, e| { let p = Array::as_mut_ptr(v); unsafe { *p.add(i) = e } }));
-            d.swaps.push(("Array::swap_elements", |v, i, j| Array::swap_elements(v, i, j)));
-            $( d.reads.push((concat!("conv::", stringify!($cf)), |v| conv::$cf(*v).to_vec())); )?
-            d.reads.push(("len()", |v| { let l = <$V<E> as Array>::len(); if l == $n { vec![$(v.$f),+] } else { vec![] } }));
-            d
-        }
-    };
-}
-vec_num_extras!(dn_v1, d_v1, Vector1, 1, [x]);
-vec_num_extras!(dn_v2, d_v2, Vector2, 2, [x, y], conv: array2);
-vec_num_extras!(dn_v3, d_v3, Vector3, 3, [x, y, z], conv: array3);
-vec_num_extras!(dn_v4, d_v4, Vector4, 4, [x, y, z, w], conv: array4);
-vec_num_extras!(dn_p1, d_p1, Point1, 1, [x]);
-vec_num_extras!(dn_p2, d_p2, Point2, 2, [x, y], conv: array2);
-vec_num_extras!(dn_p3, d_p3, Point3, 3, [x, y, z], conv: array3);
-
-fn fieldw_m2<E: El>(m: &mut Matrix2<E>, i: usize, e: E) {
-    match i {
-        0 => m.x.x = e,
-        1 => m.x.y = e,
-        2 => m.y.x = e,
-        _ => m.y.y = e,
-    }
-}
-fn fieldw_m3<E: El>(m: &mut Matrix3<E>, i: usize, e: E) {
-    let col = match i / 3 {
-        0 => &mut m.x,
-        1 => &mut m.y,
-        _ => &mut m.z,
-    };
-    match i % 3 {
-        0 => col.x = e,
-        1 => col.y = e,
-        _ => col.z = e,
-    }
-}
-fn fieldw_m4<E: El>(m: &mut Matrix4<E>, i: usize, e: E) {
-    let col = match i / 4 {
-        0 => &mut m.x,
-        1 => &mut m.y,
-        2 => &mut m.z,
-        _ => &mut m.w,
-    };
-    match i % 4 {
-        0 => col.x = e,
-        1 => col.y = e,
-        2 => col.z = e,
-        _ => col.w = e,
-    }
-}
-macro_rules! mat_like {
-    ($fname:ident, $M:ident, $n:expr, $nn:expr, $mk:ident, $arr:ident, $fieldw:ident, [$($c:ident),+], $Mint:ident, $convf:ident) => {
-        fn $fname<E: El>() -> Desc<$M<E>, E> {
-            Desc {
-                name: format!("{}<{}>", stringify!($M), E::NAME),
-                n: $nn,
-                // flat column-major contents
-                mk: |c| $mk(std::array::from_fn(|i| std::array::from_fn(|j| c[i * $n + j]))),
-                reads: vec![
-                    ("fields", |m| flat_m($arr(*m))),
-                    ("index[c][r]", |m| { let mut o = Vec::new(); for c in 0..$n { for r in 0..$n { o.push(m[c][r]); } } o }),
-                    ("as_ref nested", |m| { let a: &[[E; $n]; $n] = m.as_ref(); a.iter().flat_map(|c| c.iter().copied()).collect() }),
-                    ("as_ref flat", |m| { let a: &[E; $nn] = m.as_ref(); a.to_vec() }),
-                    ("into nested", |m| { let a: [[E; $n]; $n] = (*m).into(); a.iter().flat_map(|c| c.iter().copied()).collect() }),
-                    ("conv::arrayNxN", |m| { let a = conv::$convf(*m); a.iter().flat_map(|c| c.iter().copied()).collect() }),
-                    ("from nested", |m| { let w: $M<E> = $arr(*m).into(); flat_m($arr(w)) }),
-                    ("from &nested", |m| { let a = $arr(*m); let w: &$M<E> = (&a).into(); flat_m($arr(*w)) }),
-                    ("from &flat", |m| { let f = flat_m($arr(*m)); let a: [E; $nn] = std::array::from_fn(|i| f[i]); let w: &$M<E> = (&a).into(); flat_m($arr(*w)) }),
-                    ("from_cols", |m| { let w = $M::from_cols($(m.$c),+); flat_m($arr(w)) }),
-                    ("into mint", |m| { let mm: mint::$Mint<E> = (*m).into(); let cols = [$(mm.$c),+]; cols.iter().flat_map(|c| { let a: [E; $n] = (*c).into(); a.to_vec() }).collect() }),
-                    ("mint round trip", |m| { let mm: mint::$Mint<E> = (*m).into(); let back: $M<E> = mm.into(); flat_m($arr(back)) }),
-                    ("clone", |m| flat_m($arr(m.clone()))),
-                ],
-                writes: vec![
-                    ("field", $fieldw::<E>),
-                    ("index_mut[c][r]", |m, i, e| m[i / $n][i % $n] = e),
-                    ("as_mut nested", |m, i, e| { let a: &mut [[E; $n]; $n] = m.as_mut(); a[i / $n][i % $n] = e; }),
-                    ("as_mut flat", |m, i, e| { let a: &mut [E; $nn] = m.as_mut(); a[i] = e; }),
-                    ("from &mut nested", |m, i, e| { let mut a = $arr(*m); { let w: &mut $M<E> = (&mut a).into(); w[i / $n][i % $n] = e; } *m = $mk(a); }),
-                    ("from &mut flat", |m, i, e| { let f = flat_m($arr(*m)); let mut a: [E; $nn] = std::array::from_fn(|k| f[k]); { let w: &mut $M<E> = (&mut a).into(); w[i / $n][i % $n] = e; } *m = $mk(std::array::from_fn(|c| std::array::from_fn(|r| a[c * $n + r]))); }),
-                ],
-                swaps: vec![],
-            }
-        }
-    };
-}
-mat_like!(d_m2, Matrix2, 2, 4, mk_m2, m2, fieldw_m2, [x, y], ColumnMatrix2, array2x2);
-mat_like!(d_m3, Matrix3, 3, 9, mk_m3, m3, fieldw_m3, [x, y, z], ColumnMatrix3, array3x3);
-mat_like!(d_m4, Matrix4, 4, 16, mk_m4, m4, fieldw_m4, [x, y, z, w], ColumnMatrix4, array4x4);
-
-macro_rules! mat_float_extras {
-    ($fname:ident, $base:ident, $M:ident, $n:expr, $nn:expr) => {
-        fn $fname<E: El + cgmath::BaseFloat>() -> Desc<$M<E>, E> {
-            let mut d = $base::<E>();
-            d.reads.push(("as_ptr", |m| { let p = Matrix::as_ptr(m); (0..$nn).map(|i| unsafe { *p.add(i) }).collect() }));
-            d.reads.push(("row()", |m| { let mut cols = vec![Vec::new(); $n]; for r in 0..$n { let row = m.row(r); for c in 0..$n { cols[c].push(row[c]); } } cols.concat() }));
-            d.writes.push(("as_mut_ptr", |m, i, e| { let p = Matrix::as_mut_ptr(m); unsafe { *p.add(i) = e } }));
-            d.writes.push(("replace_col", |m, i, e| { let mut col = m[i / $n]; col[i % $n] = e; let _ = m.replace_col(i / $n, col); }));
-            d.swaps.push(("Matrix::swap_elements", |m, i, j| Matrix::swap_elements(m, (i / $n, i % $n), (j / $n, j % $n))));
-            d
-        }
-    };
-}
-mat_float_extras!(df_m2, d_m2, Matrix2, 2, 4);
-mat_float_extras!(df_m3, d_m3, Matrix3, 3, 9);
-mat_float_extras!(df_m4, d_m4, Matrix4, 4, 16);
-
-/// Quaternion: field order x, y, z, then the scalar part; new() takes the scalar first
-fn d_q<E: El + cgmath::BaseNum>() -> Desc<Quaternion<E>, E> {
-    type T4<E> = (E, E, E, E);
-    Desc {
-        name: format!("Quaternion<{}>", E::NAME),
-        n: 4,
-        mk: |c| Quaternion { v: Vector3 { x: c[0], y: c[1], z: c[2] }, s: c[3] },
-        reads: vec![
-            ("fields", |q| vec![q.v.x, q.v.y, q.v.z, q.s]),
-            ("index", |q| (0..4).map(|i| q[i]).collect()),
-            ("index[..]", |q| q[..].to_vec()),
-            ("index[0..4]", |q| q[0..4].to_vec()),
-            ("index[..4]", |q| q[..4].to_vec()),
-            ("index[i..] heads", |q| (0..4).map(|i| q[i..][0]).collect()),
-            ("as_ref array", |q| { let a: &[E; 4] = q.as_ref(); a.to_vec() }),
-            ("as_ref tuple", |q| { let t: &T4<E> = q.as_ref(); vec![t.0, t.1, t.2, t.3] }),
-            ("into array", |q| { let a: [E; 4] = (*q).into(); a.to_vec() }),
-            ("into tuple", |q| { let t: T4<E> = (*q).into(); vec![t.0, t.1, t.2, t.3] }),
-            ("conv::array4", |q| conv::array4(*q).to_vec()),
-            ("from array", |q| { let w: Quaternion<E> = [q.v.x, q.v.y, q.v.z, q.s].into(); vec![w.v.x, w.v.y, w.v.z, w.s] }),
-            ("from tuple", |q| { let w: Quaternion<E> = (q.v.x, q.v.y, q.v.z, q.s).into(); vec![w.v.x, w.v.y, w.v.z, w.s] }),
-            ("from &array", |q| { let a = [q.v.x, q.v.y, q.v.z, q.s]; let w: &Quaternion<E> = (&a).into(); vec![w.v.x, w.v.y, w.v.z, w.s] }),
-            ("from &tuple", |q| { let t = (q.v.x, q.v.y, q.v.z, q.s); let w: &Quaternion<E> = (&t).into(); vec![w.v.x, w.v.y, w.v.z, w.s] }),
-            ("new (scalar first)", |q| { let w = Quaternion::new(q.s, q.v.x, q.v.y, q.v.z); vec![w.v.x, w.v.y, w.v.z, w.s] }),
-            ("from_sv", |q| { let w = Quaternion::from_sv(q.s, q.v); vec![w.v.x, w.v.y, w.v.z, w.s] }),
-            ("mint", |q| { let m: mint::Quaternion<E> = (*q).into(); let direct = vec![m.v.x, m.v.y, m.v.z, m.s]; let m2: mint::Quaternion<E> = (*q).into(); let back: Quaternion<E> = m2.into(); if vec![back.v.x, back.v.y, back.v.z, back.s] == direct { direct } else { vec![] } }),
-        ],
-        writes: vec![
-            ("field", |q, i, e| match i { 0 => q.v.x = e, 1 => q.v.y = e, 2 => q.v.z = e, _ => q.s = e }),
-            ("index_mut", |q, i, e| q[i] = e),
-            ("index_mut[..]", |q, i, e| q[..][i] = e),
-            ("index_mut[i..i+1]", |q, i, e| q[i..i + 1][0] = e),
-            ("index_mut[..i+1]", |q, i, e| q[..i + 1][i] = e),
-            ("index_mut[i..]", |q, i, e| q[i..][0] = e),
-            ("as_mut array", |q, i, e| { let a: &mut [E; 4] = q.as_mut(); a[i] = e; }),
-            ("as_mut tuple", |q, i, e| { let t: &mut T4<E> = q.as_mut(); match i { 0 => t.0 = e, 1 => t.1 = e, 2 => t.2 = e, _ => t.3 = e } }),
-            ("from &mut array", |q, i, e| { let mut a = [q.v.x, q.v.y, q.v.z, q.s]; { let w: &mut Quaternion<E> = (&mut a).into(); w[i] = e; } *q = Quaternion { v: Vector3 { x: a[0], y: a[1], z: a[2] }, s: a[3] }; }),
-            ("from &mut tuple", |q, i, e| { let mut t = (q.v.x, q.v.y, q.v.z, q.s); { let w: &mut Quaternion<E> = (&mut t).into(); w[i] = e; } *q = Quaternion { v: Vector3 { x: t.0, y: t.1, z: t.2 }, s: t.3 }; }),
-        ],
-        swaps: vec![],
-    }
-}
-/// Quaternion over non-numeric elements: construction, fields and mint only
-fn d_q_any<E: El>() -> Desc<Quaternion<E>, E> {
-    Desc {
-        name: format!("Quaternion<{}>", E::NAME),
-        n: 4,
-        mk: |c| Quaternion { v: Vector3 { x: c[0], y: c[1], z: c[2] }, s: c[3] },
-        reads: vec![
-            ("fields", |q| vec![q.v.x, q.v.y, q.v.z, q.s]),
-            ("new (scalar first)", |q| { let w = Quaternion::new(q.s, q.v.x, q.v.y, q.v.z); vec![w.v.x, w.v.y, w.v.z, w.s] }),
-            ("from_sv", |q| { let w = Quaternion::from_sv(q.s, q.v); vec![w.v.x, w.v.y, w.v.z, w.s] }),
-            ("mint", |q| { let m: mint::Quaternion<E> = (*q).into(); vec![m.v.x, m.v.y, m.v.z, m.s] }),
-        ],
-        writes: vec![("field", |q, i, e| match i { 0 => q.v.x = e, 1 => q.v.y = e, 2 => q.v.z = e, _ => q.s = e })],
-        swaps: vec![],
     }
 }
 
